@@ -38,8 +38,8 @@ CLAIMS["C01"] = (
 )
 CLAIMS["C05"] = (
     "Lean 4 proofs of the round trips and label semantics of position-based conversion models + exact model/code correspondence under five index types",
-    "Theorems coll_dense_sparse_roundtrip (any valid collective sparse output incl. adjacent / length-1 / end-touching intervals), cp_dense_sparse_roundtrip (any strictly increasing changepoints in [1,n-1]), cp_dense_label, coll_label_covered / coll_label_uncovered in Skc/Props/C05.lean, for all n and all valid outputs.",
-    "the models take no index argument (positions only): index-independence is by construction in the model and tied to the code by running it under RangeIndex (default / offset / stepped), DatetimeIndex, PeriodIndex; the subset (MVCAPA) conversions are modelled and tied by correspondence, their round trip is not yet proved; pandas itself is not modelled.",
+    "Theorems coll_dense_sparse_roundtrip (any valid collective sparse output incl. adjacent / length-1 / end-touching intervals), cp_dense_sparse_roundtrip (any strictly increasing changepoints in [1,n-1]), cp_dense_label, coll_label_covered / coll_label_uncovered, and for the subset (MVCAPA) conversions sub_dense_sparse_roundtrip (rows and affected columns of any valid subset output), sub_label_iff / sub_label_zero_iff (cell (i,j) carries label k+1 iff row i is in anomaly k and j is one of its columns; 0 iff no anomaly covers it) in Skc/Props/C05.lean, for all n, p and all valid outputs.",
+    "the models take no index argument (positions only): index-independence is by construction in the model and tied to the code by running it under RangeIndex (default / offset / stepped), DatetimeIndex, PeriodIndex; pandas itself is not modelled (the conversions' use of IntervalIndex.get_indexer, np.unique, boolean masks is read into list functions and tied by the correspondence).",
     "3/C05",
 )
 CLAIMS["C06"] = (
